@@ -170,6 +170,19 @@ func H_C20_identity() {
 	// a different id gives a different identity
 	o, err := idp.CreateIdentity(ctx, &idp.CreateIdentityOptions{Keystore: ks1, ID: "someone-else", Type: "orbitdb"})
 	vx.Assert("C20", err == nil && o.ID != a.ID && !bytes.Equal(o.PublicKey, a.PublicKey), "different ids yield different identities")
+	if err == nil {
+		// the other identity restored with the first one's provider object (what decoding a stored identity with a
+		// reader's provider yields; both keys live in the same keystore): it signs with its own key
+		o2 := *o
+		o2.Provider = b.Provider
+		e2, err := entry.CreateEntryWithIO(ctx, api, &o2, &entry.Entry{LogID: "X", Payload: []byte("q")}, nil, io)
+		vx.Assert("C20", err == nil, "an entry can be signed with the identity")
+		if err == nil {
+			vx.Assert("C20", bytes.Equal(e2.GetKey(), o.PublicKey), "the entry carries the published key bytes")
+			vx.Assert("C20", e2.Verify(a.Provider, io) == nil, "entries signed with the identity verify under the published key bytes (identity bound to another identity's provider)")
+		}
+		vx.Cover("second-identity-same-provider")
+	}
 	vx.Cover("identity-checked")
 }
 
